@@ -5,6 +5,7 @@
 // The oracle is a shadow map  node -> (requested time, in force?)  fed ONLY by what the instrumented GetPulseTime()
 // overrides returned and by the operations the harness itself issued; it never reads the library's private state.
 #pragma once
+#include <set>
 #include <string>
 #include <vector>
 #include <algorithm>
@@ -367,6 +368,7 @@ public:
    std::vector<std::vector<std::string> > _incb;   // operations to perform from inside our next Pulse()
    std::vector<std::vector<std::string> > _inq;    // operations to perform from inside our next GetPulseTime() (regular recalculation only)
    uint64_t _lastQueryRecalc = 0;                  // number of the recalculation that last asked us
+   uint64_t _inqTouchedRecalc = (uint64_t)-1;      // the recalculation during which it was last re-timed from inside another node's GetPulseTime()
    uint64_t _startForce = kNever;                  // the time we had in force when the current recalculation began (kNever: none)
 };
 
@@ -383,6 +385,7 @@ struct H
    std::vector<Node *> nodes;    // by id
    Mgr mgr;
    bool failed; std::string fcls, fdetail;   // first violation noticed inside a library callback (thrown once the library call has returned)
+   std::set<uint64_t> staleFolded;   // F31: answers that a later answer of the same node, within the same recalculation, could not withdraw from the running minimum
    bool inSweep, inRecalc, quiet, allowInq, staleMinPossible; uint64_t recalcNo; uint64_t sweepNo, curT; Node * running;
    std::vector<uint8_t> displaced, onStack; std::vector<uint64_t> rootT; std::vector<int> deferred;
    uint64_t callbacks, sweeps, queries, followups, faultsFired, lastNext;
@@ -512,7 +515,14 @@ struct H
       if (n->_valid) ctr[K_P_REQUERY_NO_CAUSE]++;
       // asked a second time within ONE recalculation (a callback re-timed it after it had answered) and now answering LATER: the smaller first answer has
       // already been folded into the recalculation's running minimum, which only ever decreases
-      if ((inRecalc)&&(n->_lastQueryRecalc == recalcNo)&&(n->_want > n->_reported)) {staleMinPossible = true; ctr[K_P_REQUERIED_LATER_SAME_RECALC]++;}
+      if ((inRecalc)&&(n->_lastQueryRecalc == recalcNo)&&(n->_want > n->_reported)) {staleMinPossible = true; staleFolded.insert(n->_reported); ctr[K_P_REQUERIED_LATER_SAME_RECALC]++;}
+      // re-timed sideways (from inside another node's GetPulseTime()) during this recalculation, by whatever combination of operations, and now answering later than a
+      // time of this node that the recalculation may already have folded in (the one in force when it began, or an earlier answer within it)
+      if ((inRecalc)&&(n->_inqTouchedRecalc == recalcNo))
+      {
+         const uint64_t folded = std::min(n->_startForce, (n->_lastQueryRecalc == recalcNo) ? n->_reported : kNever);
+         if (n->_want > folded) {staleMinPossible = true; staleFolded.insert(folded); ctr[K_P_REQUERIED_LATER_SAME_RECALC]++;}
+      }
       n->_lastQueryRecalc = recalcNo;
       n->_reported = n->_want; n->_valid = true; n->_cause = CAUSE_NONE;
       th.u(0x51); th.u((uint64_t) n->_id); th.u(n->_want); th.u(callTime); th.u(prevTime);
@@ -538,8 +548,9 @@ struct H
                   // now re-timed to something later, that earlier contribution cannot be withdrawn (known finding F31: the reported time can only be too EARLY)
                   uint64_t tm = x->_want; const bool isInv = (t[0] == "invalidate");
                   const uint64_t folded = std::min(x->_startForce, (x->_lastQueryRecalc == recalcNo) ? x->_reported : kNever);   // the earliest time of x this recalculation may already have used
-                  if (((isInv)||((t.size() >= 3)&&(ParseTime(t[2], g_simNowUs, tm))))&&((isInv ? x->_want : tm) > folded)&&(t[0] != "wantq")) {staleMinPossible = true; ctr[K_P_REQUERIED_LATER_SAME_RECALC]++;}
+                  if (((isInv)||((t.size() >= 3)&&(ParseTime(t[2], g_simNowUs, tm))))&&((isInv ? x->_want : tm) > folded)&&(t[0] != "wantq")) {staleMinPossible = true; if (folded != kNever) staleFolded.insert(folded); ctr[K_P_REQUERIED_LATER_SAME_RECALC]++;}
                }
+               if (!InSubtree(x, n)) x->_inqTouchedRecalc = recalcNo;
                th.s("inq"); ctr[K_P_INQ_INVALIDATE]++; OpWant(t, 0, NULL);
             }
             else if ((t[0] == "attach")&&(t.size() >= 3))
@@ -610,6 +621,9 @@ struct H
       if (nAtt > maxAttached) maxAttached = nAtt;
       if ((uint64_t) maxDepth > this->maxDepth) this->maxDepth = (uint64_t) maxDepth;
       if ((mn < mm)&&(staleMinPossible)) Fail("root_time_too_early_after_later_answer_in_same_recalculation", "the manager was told to wake at " + TimeStr(mn) + " but the minimum over the " + U(nAtt) + " attached nodes' requested times is " + TimeStr(mm) + ": a node that had already answered in this recalculation was re-timed from inside another node's GetPulseTime() and answered a later time, but its first answer stays in the running minimum (effect: one early wake-up that pulses nothing)");
+      // (the withdrawn-in-vain answer stays in the aggregates of that node's ancestors until their branch is recalculated again: while an earlier time hid it -- here a node
+      //  that was due at once -- the same finding surfaces one or more recalculations later, with exactly that answer as the reported time)
+      if ((mn < mm)&&(staleFolded.count(mn))) {ctr[K_P_REQUERIED_LATER_SAME_RECALC]++; Fail("root_time_too_early_after_later_answer_in_same_recalculation", "the manager was told to wake at " + TimeStr(mn) + " but the minimum over the " + U(nAtt) + " attached nodes' requested times is " + TimeStr(mm) + ": " + TimeStr(mn) + " is the answer a node gave in an EARLIER recalculation before it was re-timed, from inside another node's GetPulseTime(), to something later within that same recalculation; it was hidden by an earlier time until now (effect: one early wake-up that pulses nothing)");}
       if (mn != mm) Fail("root_time_not_min", "the manager was told to wake at " + TimeStr(mn) + " but the minimum over the " + U(nAtt) + " attached nodes' requested times is " + TimeStr(mm) + (who ? " (" + Desc(who) + ")" : std::string()));
       th.u(0x52); th.u(mn);
       if (g_verbose) fprintf(stderr, "   recalculated at %llu: next pulse %s\n", (unsigned long long) now, TimeStr(mn).c_str());
